@@ -160,7 +160,7 @@ def run(repo: Repo, rep: Report, tier: str) -> None:
     # ---------------- R4 ---------------------------------------------------------------
     rep.rule("C12-R4", "optimising one memory cell re-points only that cell's reads (the feedback rewrite walks the table of all reads)")
     from .shared import reads_repointed_only_for_own_cell
-    reads_repointed_only_for_own_cell(repo, rep, "C12-R4")
+    reads_repointed_only_for_own_cell(repo, rep, "C12-R4", absent_is="ok")
 
     # ---------------- R5 ---------------------------------------------------------------
     rep.rule("C12-R5", "the colour lock for a memory's data channel binds only producers that actually feed that memory's write gate with its data signal: the lock store is guarded by "
@@ -191,3 +191,41 @@ def run(repo: Repo, rep: Report, tier: str) -> None:
     # ---------------- R6 ---------------------------------------------------------------
     from .shared import borrow as _borrow12
     _borrow12(repo, rep, "C10", "C10-R7", "C12-R6", "common-subexpression elimination never shares a producer between two computations unless it is a pure function of shared inputs: constants stay one per use")
+
+    # ---------------- R7 ---------------------------------------------------------------
+    rep.rule("C12-R7", "results handed back through a side channel of the lowerer belong to the call just made: every read of `returned_entity_id` after lowering a call is preceded, on "
+             "every path, by a reset of the channel that itself precedes that call (otherwise the entity returned by an earlier, unrelated call is bound to this name)")
+    n7 = 0
+    # equivalent discipline: every function that stores an entity into the channel empties it first, on all of its paths
+    from ..cfg import ENTRY as _ENTRY7, EXIT as _EXIT7
+    def _is_chan_store(s, none):
+        return isinstance(s, ast.Assign) and any(isinstance(t, ast.Attribute) and t.attr == "returned_entity_id" for t in s.targets) and (
+            (isinstance(s.value, ast.Constant) and s.value.value is None) == none)
+    writers7 = [f for f in repo.all_funcs() if ".lowering." in f.module.name + "." and any(_is_chan_store(s, False) for s in walk_local(f.node))]
+    def _writer_resets(f):
+        g = CFG(f.node)
+        rs = [s for s in g.stmts() if _is_chan_store(s, True)]
+        ws = [s for s in g.stmts() if _is_chan_store(s, False)]
+        return any(all(g.dominates(r, w) for w in ws) and not g.reaches_avoiding(_ENTRY7, {id(_EXIT7)}, lambda n, r=r: n is r, start_inclusive=False) for r in rs)
+    callee_resets7 = bool(writers7) and all(_writer_resets(f) for f in writers7)
+    rep.analysed["C12-R7:writers of the channel"] = [f.short for f in writers7]
+    for f7 in repo.all_funcs():
+        if ".lowering." not in f7.module.name + ".":
+            continue
+        reads7 = [n for n in walk_local(f7.node) if isinstance(n, ast.If) and any(isinstance(x, ast.Attribute) and x.attr == "returned_entity_id" and isinstance(x.ctx, ast.Load) for x in ast.walk(n.test))]
+        if not reads7:
+            continue
+        g7 = CFG(f7.node)
+        simple7 = [s for s in g7.stmts() if not isinstance(s, (ast.If, ast.For, ast.While, ast.Try, ast.With))]
+        resets7 = [s for s in simple7 if isinstance(s, ast.Assign) and any(isinstance(t, ast.Attribute) and t.attr == "returned_entity_id" for t in s.targets)
+                   and isinstance(s.value, ast.Constant) and s.value.value is None]
+        calls7 = [s for s in simple7 if any(call_name(c) == "lower_expr" for c in calls_in(s))]
+        for r in reads7:
+            n7 += 1
+            mine = [c for c in calls7 if g7.dominates(c, r)]
+            ok7 = any(g7.dominates(s, c) for c in mine for s in resets7) or (bool(mine) and callee_resets7)
+            rep.check(ok7, "C12-R7", f"{f7.short}: entity returned by the call (read #{reads7.index(r) + 1}) is the one of this call",
+                      "reset -> lower_expr -> read on every path" if ok7 else
+                      ("no lowering call dominates the read" if not mine else "the channel is not reset before the call: `Entity a = f(); Signal s = g();` style sequences bind a stale entity "
+                       "whenever the second callee returns none"), f7.loc(r))
+    rep.floor("C12-R7", "reads of the returned-entity channel", n7, 2)
